@@ -78,4 +78,15 @@ theorem plan_flag_change_recomputes :
       [(b!"loop {"), (b!"call message.CalculateNewFlags"), (b!"sql UPDATE message_mailbox"), (b!"sql SELECT message_mailbox"), (b!"}")] := by
   decide
 
+set_option maxRecDepth 100000 in
+/-- C10.9  the commands that only look — SELECT / EXAMINE (one handler), UNSELECT, SEARCH, NOOP, IDLE — issue no statement
+that writes, in any state and whatever the mailbox holds: opening a mailbox, leaving it without CLOSE, searching it and
+waiting in it change no flag (`\Recent` included) and nothing else. Plans regenerated from /repo on every run. -/
+theorem plan_looking_writes_nothing :
+    [(b!"selection.HandleSelect"), (b!"selection.HandleUnselect"), (b!"message.HandleSearch"), (b!"extension.HandleNoop"),
+     (b!"extension.HandleIdle")].all (fun f =>
+      !(Plan.trace f).isEmpty && !(Plan.trace f).any Plan.isSqlWrite && !(Plan.trace f).any Plan.isDetachedWrite &&
+      Plan.free (b!"tx begin") (Plan.trace f)) = true := by
+  decide
+
 end Raven.Props.C10
